@@ -183,7 +183,7 @@ def cases(seed, tier):
 def build(case):
     """-> header, ZenithalWCS, truth dict (sky), noise-free image"""
     s = case['scale']
-    cd = (-s, -s if case.get('flip_dec') else s)
+    cd = (-s, (-s if case.get('flip_dec') else s) * case.get('cdelt_ratio', 1.0))
     h = wz.make_header(case['proj'], case['crval'], case['crpix'], cd, case['shape'], beam=case['beam'],
                        use_cd=case.get('use_cd', False))
     z = wz.ZenithalWCS(h)
